@@ -13,7 +13,7 @@
    history this machine accepts is reproduced, observation for observation and
    without a panic, by the implementation machine Machine.run_case. *)
 From Coq Require Import NArith ZArith List Bool.
-From V Require Import Base.Res Base.Word Spec.Compress Spec.Tree Spec.Blake3 Model.RsXof Model.RsIo Model.Machine.
+From V Require Import Base.Res Base.Word Spec.Compress Spec.Tree Spec.Blake3 Model.RsXof Model.RsIo Model.Machine Proofs.IoP.
 Import ListNotations.
 Open Scope N_scope.
 
@@ -70,6 +70,20 @@ Definition sstep (m : mmode) (st : sstate) (o : op) : option (sstate * list obs)
       match snth (ss_h st) i with
       | Some x0 => if room (si_off x0) (len (si_bytes x0) + len b)
                    then Some (upd i (fun x => mkSI (si_bytes x ++ b) (si_off x)), [ObNum (len b)]) else None
+      | None => None end
+  | OpUpdateReader i data script =>
+      (* update_reader with a scripted reader: the hasher absorbs exactly the bytes the reader yielded before the first
+         hard error or end of file (IoP.delivered: Interrupted retried, short reads, Ok(0) = EOF) *)
+      match snth (ss_h st) i with
+      | Some x0 =>
+          if (si_off x0 =? 0) && (len (si_bytes x0 ++ data) <? 2 ^ 64) then
+            let d := delivered (copy_fuel data script) data script in
+            match snd d with
+            | EndEof => Some (upd i (fun x => mkSI (si_bytes x ++ concat (fst d)) (si_off x)), [ObOk])
+            | EndErr k => Some (upd i (fun x => mkSI (si_bytes x ++ concat (fst d)) (si_off x)), [ObErrIo k])
+            | EndFuel => None
+            end
+          else None
       | None => None end
   | OpFinalize i | OpTFinalize i =>
       match snth (ss_h st) i with
@@ -166,7 +180,7 @@ Definition sstep (m : mmode) (st : sstate) (o : op) : option (sstate * list obs)
                   then Some (mkSS (set_nth (ss_h st) i (mkSI [] 0)) (ss_r st ++ [mkSR (sub_out m 0 (si_bytes x)) n]) (ss_v st),
                              [ObXof (stream spec_c64 (sub_out m 0 (si_bytes x)) 0 (N.to_nat n))]) else None
       | None => None end
-  | OpUpdateReader _ _ _ | OpDbg _ | OpReaderDbg _ | OpZeroHasher _ | OpZeroReader _ => None
+  | OpDbg _ | OpReaderDbg _ | OpZeroHasher _ | OpZeroReader _ => None
   end.
 
 Fixpoint srun (m : mmode) (st : sstate) (ops : list op) : option (list obs) :=
